@@ -2,7 +2,7 @@
 # developer tool: confirm a seeded change in a scratch worktree of /repo HEAD: tests still pass, demo fails with it and passes without.
 # usage: seedverify.sh /tmp/seedkeep/C01-1   -> prints one line, writes <dir>/verify.json
 D=$1; N=$(basename $D); WT=/tmp/seedverify_$N
-rm -rf $WT; git -C /repo worktree add --detach $WT HEAD -q || exit 9
+rm -f $D/verify.json; rm -rf $WT; git -C /repo worktree add --detach $WT HEAD -q || exit 9
 cd $WT
 if ! git apply --check $D/patch.rebased.diff 2>/dev/null; then echo "$N PATCH-DOES-NOT-APPLY"; git -C /repo worktree remove --force $WT; exit 1; fi
 PYTHONPATH=$WT/src timeout 300 /venv/bin/python $D/demo.py > $D/demo.clean.log 2>&1; clean=$?
